@@ -30,7 +30,7 @@ P = {
     "coq_targets": ["Properties/C11.vo", "Run/Eval_C11.vo"],
     "theorems_module": "Properties.C11",
     "theorems": ["C11_no_boundary_shift", "C11_collision_needs_shift", "C11_F4_refuted", "C11_key_deterministic", "C11_F1_refuted",
-                 "C11_key_injective", "C11_cache_transparent", "C11_cache_transparent_repaired", "C11_nonvacuous", "C11_nonvacuous_mixed",
+                 "C11_key_injective", "C11_cache_transparent", "C11_cache_transparent_repaired", "C11_cache_transparent_repaired6", "C11_nonvacuous", "C11_nonvacuous_mixed",
                  "C11_identical_requests_hit", "C11_stored_entry_is_returned",
                  "C11_F2_refuted", "C11_F3_refuted", "C11_F4_history_refuted", "C11_F6_refuted", "C11_F7_refuted", "C11_F10_refuted",
                  "C11_cc_cache_transparent", "C11_cc_F4_refuted", "C11_jf_cache_transparent", "C11_F5_refuted",
